@@ -63,12 +63,21 @@ def kind(k, p):
 
 
 KINDS = ["u8", "string", "ref", "mut", "refref", "str", "slice", "nodbg", "refnodbg", "optref", "gen_dbg", "gen_nodbg"]
-ERRORS = ["no_impl", "no_match", "ordered_mismatch", "out_of_range", "more_than_once", "explicit", "no_output", "cannot_unmock", "no_default",
+ERRORS = ["no_impl", "no_impl_hidden", "no_match", "ordered_mismatch", "out_of_range", "more_than_once", "explicit", "no_output", "cannot_unmock", "no_default",
           # the same post-selection failures raised by the *second* pattern of the method (the first rejects)
           "explicit_2nd", "more_than_once_2nd", "no_output_2nd", "explicit_2nd_text"]
 
 
 def render_a(idx, kinds, err):
+    # (a trait mocked without api=: it has no nameable mock api, its calls are rendered all the same)
+    hidden = err == "no_impl_hidden"
+    if hidden:
+        err = "no_impl"
+    code = render_a_inner(idx, kinds, err)
+    return code.replace("#[unimock(api=Mk)]", "#[unimock]") if hidden else code
+
+
+def render_a_inner(idx, kinds, err):
     infos = [kind(k, p) for p, k in enumerate(kinds)]
     generics = []
     if "gen_dbg" in kinds:
@@ -245,8 +254,8 @@ OPT_DOMAIN = [("None", "None"), ("Some(0u8)", "Some(0)"), ("Some(1u8)", "Some(1)
 
 
 # sub-patterns over &str, char and a type whose Debug rendering hides the field that == reads
-SUBPATS_STR = ['"a" | "b"', '"a"']
-SUBPATS_CHAR = ["'a'..='f'", "'x' | 'y'"]
+SUBPATS_STR = ['"a" | "b"', '"a"', '"o\'b" | "bl\u00e5"', '"\u00e9t\u00e9"']
+SUBPATS_CHAR = ["'a'..='f'", "'x' | 'y'", "'\"' | '\u00e5'"]
 SUBPATS_HID = ["eq!(&Hid(1, 0))", "ne!(&Hid(1, 0))"]
 # type name -> (parameter type, [(argument literal, Debug rendering, value for `accepts`)])
 TYPED = {
@@ -262,9 +271,9 @@ def accepts(sp, v):
     if sp == "_":
         return True
     if sp in SUBPATS_STR:
-        return v in ("a", "b") if "|" in sp else v == "a"
+        return v in [x.strip().strip('"') for x in sp.split("|")]
     if sp in SUBPATS_CHAR:
-        return ("a" <= v <= "f") if ".." in sp else v in ("x", "y")
+        return ("a" <= v <= "f") if ".." in sp else v in [x.strip().strip("'") for x in sp.split("|")]
     if sp in SUBPATS_HID:
         return (v == (1, 0)) == sp.startswith("eq!")
     if sp in SUBPATS_OPT:
@@ -546,7 +555,7 @@ def instances(tier):
     for l in lists:
         if l.count("gen_dbg") > 1 or l.count("gen_nodbg") > 1:
             continue
-        errs = errs_full if (len(l) != 2 or quick) else ["no_impl", "no_match", "ordered_mismatch", "explicit"]
+        errs = errs_full if (len(l) != 2 or quick) else ["no_impl", "no_impl_hidden", "no_match", "ordered_mismatch", "explicit"]
         for e in errs:
             add(f"render:{','.join(l)}/{e}", render_a(len(insts), l, e), {"part": "A"})
     for roles in itertools.permutations(["f", "g", "h"], 3):
@@ -635,7 +644,7 @@ def run(pid, tier, replay, start):
     cov = {
         "evaluations": len(kept),
         "distinct_nontrivial": len(set(i.key for i in kept)),
-        "rule": "(A) parameter lists of arity 1 (all 12 kinds), arity 2 (all ordered pairs; quick: a cycle of pairs), four lists of arity 3-4 x 9 mock-induced error kinds, exact message text predicted by the generator, plus the wrong-order message for every assignment of {first ordered, second ordered, unordered stub} to three methods; (B) every tuple of 2-3 sub-patterns over {1, _, 0 | 2, eq!(&1), ne!(&1)} x every failing argument tuple of {0,1,2}^n, in unordered (one / two / three patterns, entries labelled with their pattern's index) and ordered mode, typed positions (Option<u8>, &str with string-literal or-patterns, char with ranges, a type whose Debug rendering hides the field == reads, under eq!/ne!), mismatch entries parsed from the message; every instance is non-trivial (a message is produced and compared); distinct = distinct instance keys",
+        "rule": "(A) parameter lists of arity 1 (all 12 kinds), arity 2 (all ordered pairs; quick: a cycle of pairs), four lists of arity 3-4 x 9 mock-induced error kinds (the missing-implementation error also for a trait mocked without api=), exact message text predicted by the generator, plus the wrong-order message for every assignment of {first ordered, second ordered, unordered stub} to three methods; (B) every tuple of 2-3 sub-patterns over {1, _, 0 | 2, eq!(&1), ne!(&1)} x every failing argument tuple of {0,1,2}^n, in unordered (one / two / three patterns, entries labelled with their pattern's index) and ordered mode, typed positions (Option<u8>, &str with string-literal or-patterns, char with ranges, a type whose Debug rendering hides the field == reads, under eq!/ne!), mismatch entries parsed from the message; every instance is non-trivial (a message is produced and compared); distinct = distinct instance keys",
         "samples": [{"instance": a[len(a) // 2].key, "code": a[len(a) // 2].code[:900]}, {"instance": b[len(b) // 2].key}],
         "exhaustive": True,
         "rendering_instances": len(a),
